@@ -36,7 +36,7 @@ type C09Case struct {
 var c09Sizes = []int{0, 10, 4000, 4090, 4096, 4100, 8192, 65500, 65536, 65600, 200000}
 
 func genC09(t *rapid.T) C09Case {
-	c := C09Case{Target: rapid.SampledFrom([]string{"stdio-server", "stdio-server", "get-stream", "get-reconnect", "legacy-sse", "stdio-client"}).Draw(t, "target")}
+	c := C09Case{Target: rapid.SampledFrom([]string{"stdio-server", "stdio-server", "get-stream", "get-reconnect", "get-multi", "legacy-sse", "stdio-client"}).Draw(t, "target")}
 	if c.Target == "stdio-client" && Excluded("C09/stdio-client-unlocked-error-writer") {
 		CountExcluded("C09/stdio-client-unlocked-error-writer")
 		c.Target = "stdio-server"
@@ -174,6 +174,101 @@ func padOf(c C09Case, i int) string {
 	return StrSpec{Class: c.Class, N: c.Sizes[i%len(c.Sizes)], Seed: i}.Expand()
 }
 
+// execC09GetMulti: several sessions, each with its own listening stream, are written to at the same time (addressed
+// notifications from one sender per message, plus broadcasts). The streams are independent byte streams: every event on a
+// stream parses on its own and is a message that was addressed to that session, each once.
+func execC09GetMulti(c C09Case) *Failure {
+	w := padWorld(ModeSJ, WorldOpt{})
+	defer w.Close()
+	nsess := 2 + c.Writers%4
+	type sess struct {
+		id string
+		lr *LiveResp
+	}
+	var ss []sess
+	for i := 0; i < nsess; i++ {
+		conn, err := w.Connect()
+		if err != nil {
+			return Failf("C09/connect", "%v", err)
+		}
+		k := 0
+		lr := StartLive(w.Srv.Handler(), "GET", "http://verif/mcp", map[string]string{"Accept": "text/event-stream", "Mcp-Session-Id": conn.SessionID}, nil, func(kind string, n int) {
+			// the bytes handed to Write are on their way for a while (a socket that takes them in pieces)
+			if len(c.Jitter) > 0 && kind == "write" {
+				k++
+				time.Sleep(time.Duration(c.Jitter[k%len(c.Jitter)]) * 30 * time.Microsecond)
+			}
+		})
+		defer lr.PeerGone()
+		if !lr.WaitFlushedHeader(2 * time.Second) {
+			return TimingFailf("C09/get-not-open", "stream did not open")
+		}
+		ss = append(ss, sess{conn.SessionID, lr})
+	}
+	waitRegistered(w.Srv, nsess)
+	var wg sync.WaitGroup
+	var mu sync.Mutex
+	sendErr := map[string]error{}
+	for r := 0; r < c.Rounds; r++ {
+		for si := range ss {
+			for i := 0; i < 1+c.Writers/4; i++ {
+				wg.Add(1)
+				go func(si, i, r int) {
+					defer wg.Done()
+					nonce := fmt.Sprintf("M%ds%dr%dx", i, si, r)
+					e := w.Srv.SendNotification(ss[si].id, "notifications/verif", map[string]interface{}{"nonce": nonce, "to": si, "pad": StrSpec{Class: c.Class, N: c.Sizes[(i+si)%len(c.Sizes)], Seed: si*7 + i}.Expand()})
+					mu.Lock()
+					sendErr[nonce] = e
+					mu.Unlock()
+				}(si, i, r)
+			}
+		}
+		wg.Add(1)
+		go func(r int) {
+			defer wg.Done()
+			w.Srv.BroadcastNotification("notifications/verif", map[string]interface{}{"nonce": fmt.Sprintf("B%dx", r), "to": -1, "pad": StrSpec{Class: c.Class, N: c.Sizes[r%len(c.Sizes)] % 70000, Seed: r}.Expand()})
+		}(r)
+	}
+	wg.Wait()
+	time.Sleep(3 * time.Millisecond)
+	where := fmt.Sprintf("%d sessions written to at the same time (%d rounds, sizes %v, class %s)", nsess, c.Rounds, c.Sizes, c.Class)
+	for si, s := range ss {
+		seen := map[string]int{}
+		for i, e := range s.lr.Events() {
+			var m struct {
+				Params struct {
+					Nonce string `json:"nonce"`
+					To    int    `json:"to"`
+					Pad   string `json:"pad"`
+				} `json:"params"`
+			}
+			if err := json.Unmarshal([]byte(e.Data), &m); err != nil || m.Params.Nonce == "" {
+				return Failf("C09/get-stream/torn-event", "%s: event %d of session %d's stream does not parse on its own (%v): %.200q", where, i, si, err, e.Data)
+			}
+			if m.Params.To != -1 && m.Params.To != si {
+				return Failf("C09/get-stream/foreign-message", "%s: session %d's stream carries %s, a message addressed to session %d", where, si, m.Params.Nonce, m.Params.To)
+			}
+			seen[m.Params.Nonce]++
+		}
+		if s.lr.Overlaps > 0 {
+			return Failf("C09/get-stream/concurrent-writes", "%s: %d Write / Flush calls on session %d's stream overlapped in time", where, s.lr.Overlaps, si)
+		}
+		for r := 0; r < c.Rounds; r++ {
+			for i := 0; i < 1+c.Writers/4; i++ {
+				nonce := fmt.Sprintf("M%ds%dr%dx", i, si, r)
+				n := seen[nonce]
+				if n > 1 || (sendErr[nonce] == nil && n != 1) {
+					return TimingFailf("C09/get-stream/message-multiset", "%s: notification %s (send error: %v) recovered %d times from session %d's stream", where, nonce, sendErr[nonce], n, si)
+				}
+			}
+			if n := seen[fmt.Sprintf("B%dx", r)]; n > 1 {
+				return Failf("C09/get-stream/message-multiset", "%s: broadcast B%dx recovered %d times from session %d's stream", where, r, n, si)
+			}
+		}
+	}
+	return nil
+}
+
 // execC09GetStalled: the peer of a listening stream stops taking bytes for several seconds (the flush of one event does
 // not return) while further events are sent to the session: the stalled write is still one writer's business, nobody
 // else touches the stream until it is done, and every message arrives once.
@@ -248,6 +343,8 @@ func execC09(c C09Case) *Failure {
 		return execC09GetReconnect(c)
 	case "get-stalled":
 		return execC09GetStalled(c)
+	case "get-multi":
+		return execC09GetMulti(c)
 	case "legacy-sse":
 		return execC09Legacy(c)
 	case "stdio-client":
